@@ -162,8 +162,9 @@ func (g *Gen) addEdges() {
 
 func genC01(g *Gen) {
 	g.setMode(0)
-	g.addGrid(0.4)
-	g.pairGrid(0.2, func(x, y d128.Decimal) { g.someModes(g.addSubOp(), x, y, 2) })
+	g.addGrid(0.36)
+	g.wordAddGrid(0.16)
+	g.pairGrid(0.18, func(x, y d128.Decimal) { g.someModes(g.addSubOp(), x, y, 2) })
 	g.vanishGrid(0.1, func(x, y d128.Decimal) {
 		if g.r.Intn(2) == 0 {
 			x, y = y, x
@@ -289,7 +290,8 @@ func genC02(g *Gen) {
 	g.setMode(0)
 	g.mulGrid(0.34)
 	g.mulWideSubnormalGrid(0.2)
-	g.quoGrid(0.12)
+	g.wordMulQuoGrid(0.1)
+	g.quoGrid(0.1)
 	g.pairGrid(0.2, func(x, y d128.Decimal) { g.someModes([]string{"Mul", "Quo"}[g.r.Intn(2)], x, y, 2) })
 	for !g.w.full() {
 		switch g.r.Intn(18) {
